@@ -86,6 +86,24 @@ def record_dump(gb, m, mode: str):
     return {"k": "dump", "v": v, "internal": internal, "out": out, "back": back, "mode": mode}
 
 
+class _ReadOnly:
+    """the least a stream has to offer to load(): read(n)"""
+
+    def __init__(self, b):
+        self._read = io.BytesIO(b).read
+
+    def read(self, n):
+        return self._read(n)
+
+
+def _stream(kind, b):
+    if kind == "readonly":
+        return _ReadOnly(b)
+    if kind == "buffered":  # what open(path, "rb"), os.fdopen(pipe) and socket.makefile("rb") return: refuses negative sizes except -1
+        return io.BufferedReader(io.BytesIO(b))
+    return io.BytesIO(b)
+
+
 def record_load(gb, inp, cfg, prefix=False, stream=False, defaults=False):
     global _recording
     install_audit()
@@ -97,9 +115,9 @@ def record_load(gb, inp, cfg, prefix=False, stream=False, defaults=False):
         try:
             try:
                 if defaults:  # the documented defaults of load() / loads() are (False, False): called without the keyword arguments
-                    r = gb.load(io.BytesIO(b)) if stream else gb.loads(b)
+                    r = gb.load(_stream(stream, b)) if stream else gb.loads(b)
                 elif stream:
-                    r = gb.load(io.BytesIO(b), py2str_as_py3str=cfg[0], py3str_as_py2str=cfg[1])
+                    r = gb.load(_stream(stream, b), py2str_as_py3str=cfg[0], py3str_as_py2str=cfg[1])
                 else:
                     r = gb.loads(b, py2str_as_py3str=cfg[0], py3str_as_py2str=cfg[1])
                 real = ["value", r]
